@@ -213,6 +213,37 @@ inline void validitySweep(Ctx& c, long j)
     c.feature("c04_invalid_kinds", kindName(kd));
 }
 
+// deterministic: per typed kind and payload size, every inner length field swept over a value lattice (8-bit fields
+// exhaustively); the swept message sits between two valid ones so that the position of the following message is checked
+inline void innerLengthSweep(Ctx& c, long j)
+{
+    Kind kd = static_cast<Kind>(j % 7);
+    size_t extra = static_cast<size_t>((j / 7) % 3) * 9 + static_cast<size_t>((j / 7) % 3);  // 0, 10, 20 bytes beyond the minimum
+    Rng r = c.fixedRng(j, 8);
+    Checker ck{c};
+    ASAM::CMP::Decoder dec;
+    uint8_t mt = kindMsgType(kd, r);
+    Bytes base = genPayload(kd, kindMinLen(kd) + extra, r);
+    for (auto& lf : lengthFieldsOf(kd, base))
+    {
+        size_t rem = base.size() - (lf.first + static_cast<size_t>(lf.second));
+        for (uint32_t v : lengthLattice(lf.second, rem, c.thorough() && (j / 7) % 3 == 0))
+        {
+            uint8_t dummy;
+            GMsg a = genMsg(r, kd, 1, dummy), b = genMsg(r, kd, 1, dummy), d = genMsg(r, kd, 1, dummy);
+            b.payload = base;
+            if (lf.second == 1)
+                b.payload[lf.first] = static_cast<uint8_t>(v);
+            else
+                wire::set16(b.payload.data() + lf.first, static_cast<uint16_t>(v));
+            Bytes f = buildFrame(1, 9, mt, 2, static_cast<uint16_t>(v), {a, b, d});
+            ck.check(dec, f, "inner length field swept", mix64(static_cast<uint64_t>(kd) * 64 + lf.first, v < 4 ? v : (v == rem ? 4 : (v > rem ? 5 : 6))));
+            c.count("inner_length_field_values");
+        }
+    }
+    c.feature("c04_inner_length_kinds", kindName(kd));
+}
+
 inline void randomCase(Ctx& c, long idx)
 {
     Rng r = c.caseRng(idx);
@@ -245,10 +276,11 @@ inline void randomCase(Ctx& c, long idx)
 constexpr long kKindSweeps = K_COUNT * 4;
 constexpr long kFieldSweeps = 3;
 constexpr long kValiditySweeps = 7;
+constexpr long kInnerLengthSweeps = 21;
 
 inline long count(Ctx& c)
 {
-    return kKindSweeps + kFieldSweeps + kValiditySweeps + (c.thorough() ? 2000000 : 40000);
+    return kKindSweeps + kFieldSweeps + kValiditySweeps + kInnerLengthSweeps + (c.thorough() ? 2000000 : 40000);
 }
 
 inline void run(Ctx& c, long idx)
@@ -261,7 +293,10 @@ inline void run(Ctx& c, long idx)
     idx -= kFieldSweeps;
     if (idx < kValiditySweeps)
         return validitySweep(c, idx);
-    randomCase(c, idx + kKindSweeps + kFieldSweeps + kValiditySweeps);
+    idx -= kValiditySweeps;
+    if (idx < kInnerLengthSweeps)
+        return innerLengthSweep(c, idx);
+    randomCase(c, idx + kKindSweeps + kFieldSweeps + kValiditySweeps + kInnerLengthSweeps);
 }
 
 }  // namespace c04
